@@ -110,7 +110,55 @@ def check_history(ctx, h, idx):
     return out
 
 
+def relabel_part(ctx, count):
+    """the same model trained again on another problem (other label names, other number of classes): with zero sensors it still
+    answers with labels of the MOST RECENT training set, after any number of predictions in between"""
+    from pysensors.classification import SSPOC
+    rng = ctx.rng
+    for idx in range(count):
+        ncls = rng.choice([2, 3])
+        X, y = models.gen_classification(rng, n_classes=ncls, n_features=rng.randint(3, 7), per_class=rng.randint(5, 8))
+        basis = rng.choice(models.BASIS_KINDS)
+        nm = None if basis == "identity" else rng.randint(2, min(X.shape))
+        relabel = rng.choice(["shifted", "strings", "fewer_classes"])
+        if relabel == "shifted":
+            y2 = y + 10
+        elif relabel == "strings":
+            y2 = np.array(["ant", "bee", "cat", "dog"])[y]
+        else:
+            y2 = np.where(y == y.max(), y.min(), y) + 20
+            if len(set(y2.tolist())) < 2:
+                y2 = y + 20
+        how = rng.choice(["fit", "update_n_basis_modes"])
+        desc = {"X": X.tolist(), "y": y.tolist(), "y2": y2.tolist(), "basis": basis, "n_modes": nm, "second_training": how}
+        ctx.evaluations += 1
+        ctx.count("relabelled_refit:" + relabel + "/" + how)
+        try:
+            model = SSPOC(basis=models.make_basis(basis, nm), n_sensors=0)
+            model.fit(X.copy(), y.copy(), quiet=True)
+            p1 = np.asarray(model.predict(X[:, []]))
+            if how == "fit":
+                model.fit(X.copy(), y2.copy(), quiet=True)
+            else:
+                k = rng.randint(2, nm if nm else min(X.shape))
+                model.update_n_basis_modes(k, (X.copy(), y2.copy()), quiet=True)
+            model.update_sensors(n_sensors=0, xy=(X.copy(), y2.copy()), quiet=True)
+            p2 = np.asarray(model.predict(X[:, []]))
+        except Exception as e:
+            ctx.count("relabelled_refit_raises:" + type(e).__name__)
+            continue
+        ok1 = p1.shape == (len(X),) and set(p1.tolist()) <= set(y.tolist())
+        ok2 = p2.shape == (len(X),) and set(p2.tolist()) <= set(y2.tolist())
+        if not (ok1 and ok2):
+            ctx.violation("concrete", f"zero sensors: after training on labels {sorted(set(y2.tolist()))} (earlier: {sorted(set(y.tolist()))}) predict "
+                                      f"returns {p2.tolist()[:6]}…",
+                          {"signature": "zero-sensors-invalid-labels", "relabel_case": desc, "index": idx})
+        else:
+            ctx.nontriv(("relabel", basis, relabel, how))
+
+
 def run(ctx: C.Ctx):
+    relabel_part(ctx, ctx.scale(30, 300))
     rng = ctx.rng
     todo = []
     import glob, json
@@ -163,6 +211,23 @@ def run(ctx: C.Ctx):
 
 
 def replay(ctx: C.Ctx, payload):
+    if "relabel_case" in payload["data"]:
+        from pysensors.classification import SSPOC
+        d = payload["data"]["relabel_case"]
+        X, y, y2 = np.array(d["X"], dtype=float), np.array(d["y"]), np.array(d["y2"])
+        model = SSPOC(basis=models.make_basis(d["basis"], d["n_modes"]), n_sensors=0).fit(X.copy(), y.copy(), quiet=True)
+        model.predict(X[:, []])
+        if d["second_training"] == "fit":
+            model.fit(X.copy(), y2.copy(), quiet=True)
+        else:
+            model.update_n_basis_modes(2, (X.copy(), y2.copy()), quiet=True)
+        model.update_sensors(n_sensors=0, xy=(X.copy(), y2.copy()), quiet=True)
+        p2 = np.asarray(model.predict(X[:, []]))
+        if not set(p2.tolist()) <= set(y2.tolist()):
+            ctx.violation("concrete", f"zero sensors: predict returns {p2.tolist()[:6]}… after training on labels {sorted(set(y2.tolist()))}",
+                          {"signature": "zero-sensors-invalid-labels", "relabel_case": d})
+        print("# replayed:", payload.get("what"))
+        return
     h = S.from_desc(payload["data"]["history"])
     out = check_history(ctx, h, 0)
     print("# replayed:", payload.get("what"), [o[0] for o in (out or [])])
